@@ -195,6 +195,19 @@ def mk_not(t):
     return ("not", t)
 
 
+# ordered sequences of column labels: frame.columns, concatenations, order-keeping filters
+def is_seq(v):
+    return isinstance(v, tuple) and len(v) > 0 and (v[0] in ("seqcat", "seqdiff", "seqinter")
+                                                    or (v[0] == "attr" and len(v) == 3 and v[2] == "columns"))
+
+
+def mk_seqcat(*parts):
+    out = []
+    for p in parts:
+        out += list(p[1:]) if isinstance(p, tuple) and p and p[0] == "seqcat" else [p]
+    return out[0] if len(out) == 1 else ("seqcat",) + tuple(out)
+
+
 def _boolish(v):
     return isinstance(v, tuple) and len(v) > 0 and v[0] in ("bool", "and", "or", "not", "cmp", "isnone")
 
@@ -214,6 +227,9 @@ def mk_cond(t, a, b):
             and a[3] == b:
         # nested ifs with the same alternative == one if with the merged condition
         return mk_cond(mk_and(t, a[1]), a[2], b)
+    if isinstance(a, tuple) and a and a[0] == "cond" and len(a) == 4 and not isinstance(b, (Arr, ListObj)) \
+            and a[2] == b:
+        return mk_cond(mk_and(t, mk_not(a[1])), a[3], b)
     if _boolish(a) and _boolish(b) and (a in (TRUE, FALSE) or b in (TRUE, FALSE)):
         # a conditional between truth values is a connective
         if b == FALSE:
@@ -239,6 +255,7 @@ class World:
 
     def __init__(self, mods, alias, repo=None):
         self.repo = repo
+        self.core = set(mods)                  # the modules whose functions the runs follow freely
         self.mods = mods                       # name -> ast.Module
         self.alias = alias                     # dotted module name -> name
         self.funcs = {}                        # (modname, fname) -> FunctionDef
@@ -285,9 +302,13 @@ class World:
 
     def load_private(self, dotted, name):
         """a PRIVATE helper imported from another module of the package is followed there (public
-        functions, e.g. the validation API, stay opaque: their contract is trusted)"""
+        functions, e.g. the validation API, stay opaque atoms of the symbolic runs; what the tie needs
+        from them is established by the pass-through analysis, see _Flow)"""
         if name is not None and not name.startswith("_"):
             return
+        self.load_module(dotted)
+
+    def load_module(self, dotted):
         if dotted in self.mods or self.repo is None or not dotted.startswith("sktime"):
             return
         base = os.path.join(self.repo, *dotted.split("."))
@@ -427,7 +448,28 @@ class Interp:
         return ("tuple",) + tuple(self.ev(x, env) for x in e.elts)
 
     def ev_List(self, e, env):
+        if e.elts and all(isinstance(x, ast.Starred) for x in e.elts):
+            parts = [self.ev(x.value, env) for x in e.elts]
+            if all(is_seq(p) for p in parts):
+                return mk_seqcat(*parts)
         return ("list",) + tuple(self.ev(x, env) for x in e.elts)
+
+    def ev_ListComp(self, e, env):
+        """[c for c in S if c (not) in T] over label sequences: the labels of S that are (not) in T, in
+        the order of S"""
+        if len(e.generators) == 1:
+            g = e.generators[0]
+            if isinstance(g.target, ast.Name) and not g.is_async and isinstance(e.elt, ast.Name) \
+                    and e.elt.id == g.target.id and len(g.ifs) == 1:
+                t = g.ifs[0]
+                if isinstance(t, ast.Compare) and len(t.ops) == 1 and isinstance(t.ops[0], (ast.In, ast.NotIn)) \
+                        and isinstance(t.left, ast.Name) and t.left.id == g.target.id:
+                    S, T = self.ev(g.iter, env), self.ev(t.comparators[0], env)
+                    if is_seq(S) and is_seq(T):
+                        return ("seqdiff" if isinstance(t.ops[0], ast.NotIn) else "seqinter", S, T)
+        raise Unsupported("comprehension: " + _u(e))
+
+    ev_GeneratorExp = ev_ListComp
 
     def ev_UnaryOp(self, e, env):
         v = self.ev(e.operand, env)
@@ -439,6 +481,8 @@ class Interp:
 
     def ev_BinOp(self, e, env):
         a, b = self.ev(e.left, env), self.ev(e.right, env)
+        if isinstance(e.op, ast.Add) and is_seq(a) and is_seq(b):
+            return mk_seqcat(a, b)
         if isinstance(e.op, (ast.Add, ast.Mod)) and (_is(a, "str") or _is(a, "fstr") or
                                                      (isinstance(e.op, ast.Add) and (_is(b, "str") or _is(b, "fstr")))):
             return ("fstr",)           # "..." % x, "..." + s: a formatted message
@@ -540,6 +584,11 @@ class Interp:
                 return b[1].add(lin(b[3] * ix[0][1].c))     # element of a range of known length
         if isinstance(b, Arr):
             return ("sub", b, ix, len(b.writes))
+        if len(ix) == 1 and ix[0][0] == "at" and is_seq(ix[0][1]):
+            return ("select", b, ix[0][1])           # frame[labels]
+        if _is(b, "attr", 3) and b[2] == "loc" and len(ix) == 2 and ix[0] == ("full",) \
+                and ix[1][0] == "at" and is_seq(ix[1][1]):
+            return ("select", b[1], ix[1][1])        # frame.loc[:, labels]
         return ("sub", b, ix, 0)
 
     def isinstance_(self, v, t):
@@ -597,6 +646,8 @@ class Interp:
             return ("dict",) + tuple(kw.items())
         if fu in ("list", "tuple") and not args and not kw:
             return (fu,)
+        if fu in ("list", "tuple") and len(args) == 1 and not kw and is_seq(args[0]):
+            return args[0]             # the same labels in the same order
         if fu == "slice" and not kw and 1 <= len(args) <= 2:
             lo, hi = (None, args[0]) if len(args) == 1 else args
             lo = None if lo is None or lo == NONE else self.atomise(lo, e)
@@ -627,8 +678,8 @@ class Interp:
             elif f.id in self.w.imports[self.modname]:
                 src, nm = self.w.imports[self.modname][f.id]
                 self.w.load_private(src, nm)
-                if (src, nm) in self.w.funcs:
-                    tgt = (src, nm)
+                if (src, nm) in self.w.funcs and (src in self.w.core or nm.startswith("_")):
+                    tgt = (src, nm)      # public functions of other modules stay opaque atoms
             if tgt and f.id not in self.opaque_funcs:
                 return self.inline(tgt[0], None, self.w.funcs[tgt], None, args, kw, e)
             if tgt:
@@ -652,6 +703,21 @@ class Interp:
                 raise Unsupported("list method: " + _u(e))
             if (_is(recv, "str") or _is(recv, "fstr")) and f.attr == "format":
                 return ("fstr",)
+            if is_seq(recv):
+                # pandas Index / list operations that keep the order of the labels
+                if f.attr in ("tolist", "to_list", "copy") and not args and not kw:
+                    return recv
+                unsorted = kw.get("sort") == FALSE
+                if f.attr == "append" and len(args) == 1 and not kw and is_seq(args[0]):
+                    return mk_seqcat(recv, args[0])
+                if f.attr == "difference" and len(args) == 1 and is_seq(args[0]) and unsorted and len(kw) == 1:
+                    return ("seqdiff", recv, args[0])
+                if f.attr == "union" and len(args) == 1 and is_seq(args[0]) and unsorted and len(kw) == 1:
+                    return mk_seqcat(recv, ("seqdiff", args[0], recv))
+                if f.attr == "intersection" and len(args) == 1 and is_seq(args[0]) and unsorted and len(kw) == 1:
+                    return ("seqinter", recv, args[0])
+            if f.attr == "reindex" and not args and set(kw) == {"columns"} and is_seq(kw["columns"]):
+                return ("select", recv, kw["columns"])
             if isinstance(recv, Arr) and f.attr not in ("reshape", "ravel", "copy"):
                 raise Unsupported("method of a tracked array: " + _u(e))
             if f.attr in self.assume_true and recv != ("name", "np"):
@@ -891,9 +957,11 @@ class Interp:
         self.selfattrs = sa
         try:
             ra = self.block(st.body, ea)
+            sa = self.selfattrs                 # (a nested if may have replaced the dict)
             self.guards[-1] = mk_not(t)
             self.selfattrs = sb
             rb = self.block(st.orelse, eb)
+            sb = self.selfattrs
         finally:
             self.guards.pop()
         if isinstance(ra, Ret) and isinstance(rb, Ret):
@@ -913,7 +981,9 @@ class Interp:
         # both fall through: merge what they bound
         self.selfattrs = {}
         for k in set(sa) | set(sb):
-            va, vb = sa.get(k, ("undef",)), sb.get(k, ("undef",))
+            # an attribute one branch does not assign keeps the value it had
+            was = lin(("attr", ("name", "self"), k)) if k in self.int_attrs else ("attr", ("name", "self"), k)
+            va, vb = sa.get(k, was), sb.get(k, was)
             self.selfattrs[k] = va if va is vb or self.same(va, vb) else mk_cond(t, va, vb)
         for k in set(ea) | set(eb):
             va, vb = ea.get(k, ("undef",)), eb.get(k, ("undef",))
@@ -1260,6 +1330,12 @@ def _swt(world, defs, fname):
     _need(not it.effects, fname + " has side effects")
 
 
+def _raises_when(exits, test, exc):
+    """one of the exceptional exits raises `exc` whenever `test` holds (its condition is the test, or a
+    disjunction that contains it: adjacent raises of the same exception are one exit)"""
+    return any(e == exc and (c == test or (_is(c, "or") and test in c[1:])) for c, e in exits)
+
+
 def _lits(guards):
     """a path condition (tuple of tests) as the set of its conjuncts"""
     t = mk_and(*guards)
@@ -1407,7 +1483,7 @@ def _predicts(world, defs, fname):
     # --- recursive
     it, res = run("_RecursiveReducer", "predict", PARAMS)
     hook, fhv, exits = forecast(res, "recursive")
-    _need((mk_and(mk_not(("isnone", selfX)), ("isnone", Xp)), "ValueError") in exits,
+    _need(_raises_when(exits, mk_and(mk_not(("isnone", selfX)), ("isnone", Xp)), "ValueError"),
           "recursive: X must be passed to predict if it was given in fit", ("tuple",) + tuple(exits))
     tguard, yp = unguard(hook, fhv, "recursive")
     fm_atom = ("sub", ("mcall", fhv, "to_relative", (cut,), ()), (("at", lin(-1)),), 0)
@@ -1461,7 +1537,7 @@ def _predicts(world, defs, fname):
     # --- dirrec
     it, res = run("_DirRecReducer", "predict", PARAMS)
     hook, fhv, exits = forecast(res, "dirrec")
-    _need((mk_not(("isnone", Xp)), "NotImplementedError") in exits, "dirrec: exogenous X refused at predict",
+    _need(_raises_when(exits, mk_not(("isnone", Xp)), "NotImplementedError"), "dirrec: exogenous X refused at predict",
           ("tuple",) + tuple(exits))
     tguard, Y = unguard(hook, fhv, "dirrec")
     q = ("len", ("attr", SELF, "fh"))
@@ -1505,12 +1581,119 @@ def _predicts(world, defs, fname):
     defs.append(("gen_lw_lo", "wl c", "Z", _gallina(_lin_in(windows[0][1][0], {"wl", "c"}, "window start", rw))))
     defs.append(("gen_lw_hi", "wl c", "Z", _gallina(_lin_in(windows[0][1][1], {"wl", "c"}, "window stop", rw))))
 
+    # --- who owns the column order: what fit / update store as self._y / self._X (the frames the last
+    # window is cut from) is the caller's data handed through validation functions that return their
+    # argument UNCHANGED (pass-through analysis), and the training windows are built from the caller's
+    # y / X themselves: both sides see the columns in the caller's order
+    flow = _Flow(world)
+
+    def validated(v, what):
+        """v is component k of G(.., y, .., X, ..) for a followable G that returns (y, X) unchanged:
+        gives (k, the y argument, the X argument)"""
+        _need(_is(v, "sub", 4) and _is(v[1], "call") and _is(v[1][1], "name", 2) and len(v[2]) == 1
+              and v[2][0][0] == "at" and isinstance(v[2][0][1], Lin) and v[2][0][1].is_const(),
+              what + ": expected a component of the validated (y, X) pair", v)
+        call = v[1]
+        r = flow.resolve("sktime_base", call[1][1]) or flow.resolve("reduce", call[1][1])
+        _need(r is not None, what + ": %s cannot be followed" % call[1][1])
+        gm, gfn = r
+        names = [p.arg for p in gfn.args.args]
+        bound = dict(zip(names, call[2]))
+        bound.update(dict(call[3]))
+        _need(len(call[2]) <= len(names) and set(bound) <= set(names), what + ": arguments of " + gfn.name, call)
+        py, pX = names[0], names[1] if len(names) > 1 else None
+        _need(py in bound and pX in bound, what + ": %s must be given y and X" % gfn.name, call)
+        flow.returns(gm, gfn, [py, pX])            # raises unless (y, X) come back unchanged
+        used.setdefault("validation", set()).add(gfn.name)
+        return v[2][0][1].c, bound[py], bound[pX]
+
+    def calls_of(v, name, seen=None):
+        """the opaque calls of `name` inside a value"""
+        seen = set() if seen is None else seen
+        out = []
+        if isinstance(v, (Arr, ListObj)):
+            if id(v) in seen:
+                return out
+            seen.add(id(v))
+            parts = list(v.shape) + [x for w in v.writes for x in (w[2], w[3])] if isinstance(v, Arr) \
+                else list(v.items) + [a[2] for a in v.appends]
+        elif isinstance(v, Lin):
+            parts = list(v.t)
+        elif isinstance(v, tuple):
+            if _is(v, "call") and v[1] == ("name", name):
+                out.append(v)
+            parts = list(v)
+        else:
+            parts = []
+        for x in parts:
+            out += calls_of(x, name, seen)
+        return out
+
+    for cname in STRATEGY_CLASSES:
+        it, res = run(cname, "fit", ["self", "y", "X", "fh"])
+        v, exits = _split(res)
+        _need(v == SELF, cname + ".fit must return self", v)
+        ky, ay, aX = validated(it.selfattrs.get("_y"), cname + ".fit: self._y")
+        kx, by, bX = validated(it.selfattrs.get("_X"), cname + ".fit: self._X")
+        _need((ky, kx) == (0, 1) and ay == by == ("name", "y") and aX == bX == Xp,
+              cname + ".fit must store the validated y and X it was given", ("tuple", ay, aX, by, bX))
+        fits = [e for e in it.effects if e[0] == "fit"]
+        _need(fits, cname + ".fit does not fit any regressor")
+        tcalls = [c for e in fits for c in calls_of(e[3], fname)]
+        _need(tcalls, cname + ".fit: the regressors are not fitted on the output of " + fname)
+        for c in tcalls:
+            kw = dict(c[3])
+            # (the validated objects ARE the caller's, by the pass-through analysis above)
+            _need(not c[2] and kw.get("y") in (("name", "y"), it.selfattrs.get("_y"))
+                  and kw.get("X") in (Xp, it.selfattrs.get("_X")),
+                  cname + ".fit: the training windows must be built from the caller's y and X", c)
+
+    # update(y, X, update_params=False): the new data go through the same validation and are merged by
+    # label into what is remembered
+    for cname in ("_DirectReducer", "_RecursiveReducer"):
+        hit = world.method(cname, "update")
+        _need(hit is not None, cname + ".update missing")
+        fn = hit[2]
+        _need([a.arg for a in fn.args.args] == ["self", "y", "X", "update_params"], cname + ".update signature")
+        it = Interp(world, hit[1], cls=cname, opaque_funcs=(fname,), assume_true=("is_all_out_of_sample",))
+        res = it.run(it.body(fn), {"self": SELF, "y": ("name", "y"), "X": Xp, "update_params": FALSE})
+        used[cname].update(n for c, n in it.inlined)
+        used[cname].add("update")
+        v, exits = _split(res)
+        _need(v == SELF, cname + ".update must return self", v)
+        for attr, k in (("_y", 0), ("_X", 1)):
+            sv = it.selfattrs.get(attr)
+            old = ("attr", SELF, attr)
+            _need(_is(sv, "cond", 4), cname + ".update: self.%s" % attr, sv)
+            new = sv[2] if sv[3] == old else sv[3] if sv[2] == old else None
+            if attr == "_X":
+                # a frame: merging by label may reorder the columns (pandas returns the sorted union
+                # when the two frames list them differently), so the merged frame must be re-indexed by
+                # a column-order-preserving selection: the columns remembered so far in their order,
+                # then the columns seen for the first time in the order of the merged frame.  Such a
+                # label list is a permutation of the merged frame's columns that keeps the old layout;
+                # a selection that drops the new columns, a sort, or no selection at all is not.
+                _need(_is(new, "select", 3), cname + ".update: the merged frame must be re-indexed to the "
+                      "column order remembered so far", new)
+                merged, labels = new[1], new[2]
+                ocols, mcols = ("attr", old, "columns"), ("attr", merged, "columns")
+                _need(labels == mk_seqcat(ocols, ("seqdiff", mcols, ocols)),
+                      cname + ".update: the selection must be the old columns in their order followed by "
+                      "the unseen columns of the merged frame", labels)
+                new = merged
+            _need(_is(new, "mcall", 5) and new[2] == "combine_first" and new[3] == (old,) and not new[4],
+                  cname + ".update: self.%s = new.combine_first(self.%s)" % (attr, attr), sv)
+            kk, ay, aX = validated(new[1], cname + ".update: the new " + attr)
+            _need(kk == k and ay == ("name", "y") and aX == Xp,
+                  cname + ".update must merge the validated y / X it was given", new)
+
     # --- dirrec fit, from the public `fit`
     it, res = run("_DirRecReducer", "fit", ["self", "y", "X", "fh"])
     v, exits = _split(res)
     _need(v == SELF, "dirrec fit must return self", v)
-    _need((mk_not(("isnone", Xp)), "NotImplementedError") in exits, "dirrec fit: exogenous X refused",
-          ("tuple",) + tuple(exits))
+    _need(_raises_when(exits, mk_not(("isnone", Xp)), "NotImplementedError")
+          or _raises_when(exits, mk_not(("isnone", it.selfattrs.get("_X"))), "NotImplementedError"),
+          "dirrec fit: exogenous X refused", ("tuple",) + tuple(exits))
     fits = [e for e in it.effects if e[0] == "fit"]
     _need(len(fits) == 1 and not [e for e in it.effects if e[0] == "predict"],
           "dirrec fit: one estimator.fit in the loop")
@@ -1519,10 +1702,16 @@ def _predicts(world, defs, fname):
     _need(est == ("call", ("name", "clone"), (("attr", SELF, "estimator"),), ()),
           "dirrec fit: a fresh clone of self.estimator per step", est)
     Xf, tgt = v[3]
+    tcs = calls_of(v, fname)
+    _need(tcs and all(c == tcs[0] for c in tcs), "dirrec fit: one call of " + fname, v)
+    tkw = dict(tcs[0][3])
+    # y / X: the caller's, or the validated objects (the same by the pass-through analysis)
+    _need(tkw.get("y") in (("name", "y"), it.selfattrs.get("_y")) and tkw.get("X") in (Xp, it.selfattrs.get("_X")),
+          "dirrec fit: the training windows must be built from the caller's y and X", tcs[0])
     swt = ("call", ("name", fname), (), (
-        ("X", Xp), ("fh", ("mcall", ("attr", SELF, "fh"), "to_relative", (cut,), ())),
+        ("X", tkw["X"]), ("fh", ("mcall", ("attr", SELF, "fh"), "to_relative", (cut,), ())),
         ("scitype", ("attr", SELF, "_estimator_scitype")), ("window_length", ("attr", SELF, "window_length")),
-        ("y", ("name", "y"))))
+        ("y", tkw["y"])))
     yt = ("sub", swt, (("at", lin(0)),), 0)
     xt0 = ("sub", swt, (("at", lin(1)),), 0)
     xt = ("cond", _tab_cmp_self(), NP("expand_dims", xt0, axis=lin(1)), xt0)
@@ -1555,6 +1744,178 @@ def _predicts(world, defs, fname):
           and est_list.appends[0][1] == lp and est_list.appends[0][2] == est,
           "dirrec fit: estimators_ collects the fitted clones in step order", est_list)
     return used
+
+
+# ------------------------------------------------------------------------------------------------
+# "returns its argument unchanged": a conservative, fail-closed pass-through analysis of the public
+# validation functions that stand between the caller's data and what the forecaster stores.  The
+# symbolic runs keep those functions opaque (their checks use constructs outside the subset); what
+# the tie needs from them is only that the object they return for y / X IS the object they were given,
+# not modified - in particular with the columns in the caller's order.
+
+READ_ONLY_METHODS = {"equals", "isna", "isnull", "notna", "any", "all", "to_numpy", "nunique", "copy",
+                     "is_monotonic_increasing", "is_unique"}
+PURE_CALLS = {"isinstance", "len", "type", "hasattr", "id", "repr", "str", "tuple", "list"}
+
+
+class _Flow:
+    def __init__(self, world):
+        self.w = world
+        self.seen = {}
+
+    def resolve(self, mn, name):
+        """(module, FunctionDef) of a plain-name callee, following imports inside the package"""
+        if (mn, name) in self.w.funcs:
+            return mn, self.w.funcs[(mn, name)]
+        if name in self.w.imports.get(mn, {}):
+            src, nm = self.w.imports[mn][name]
+            self.w.load_module(src)
+            if (src, nm) in self.w.funcs:
+                return src, self.w.funcs[(src, nm)]
+        return None
+
+    def rooted(self, e, alias):
+        """is the expression the tracked object itself (a name, or an element of a tracked container)"""
+        if isinstance(e, ast.Name):
+            return e.id in alias
+        if isinstance(e, ast.Subscript):
+            return self.rooted(e.value, alias)
+        if isinstance(e, ast.Starred):
+            return self.rooted(e.value, alias)
+        return False
+
+    def mentions(self, e, alias):
+        return any(isinstance(n, ast.Name) and n.id in alias for n in ast.walk(e))
+
+    def unchanged(self, mn, fn, params):
+        """the function neither modifies the objects bound to `params` nor rebinds them to anything
+        else than the result of a pass-through call; returns the alias set at the end"""
+        key = (mn, fn.name, tuple(sorted(params)))
+        if key in self.seen:
+            if self.seen[key] is None:
+                raise Unsupported("recursion in the validation functions: " + fn.name)
+            return self.seen[key]
+        self.seen[key] = None
+        alias = set(params)
+        for n in ast.walk(fn):
+            if isinstance(n, (ast.Lambda, ast.ListComp, ast.SetComp, ast.DictComp, ast.GeneratorExp)) \
+                    and self.mentions(n, alias):
+                raise Unsupported("%s: the data are used inside %s" % (fn.name, type(n).__name__))
+            if isinstance(n, (ast.Global, ast.Nonlocal, ast.With, ast.Try, ast.While)):
+                if self.mentions(n, alias):
+                    raise Unsupported("%s: %s around the data" % (fn.name, type(n).__name__))
+        changed = True
+        while changed:          # aliases: t = p, for t in ps[1:], t = passthrough(p)
+            changed = False
+            for n in ast.walk(fn):
+                tgt = None
+                if isinstance(n, ast.Assign) and len(n.targets) == 1 and isinstance(n.targets[0], ast.Name):
+                    if self.rooted(n.value, alias) or self.passthrough_call(mn, n.value, alias):
+                        tgt = n.targets[0].id
+                elif isinstance(n, ast.For) and isinstance(n.target, ast.Name) and self.rooted(n.iter, alias):
+                    tgt = n.target.id
+                if tgt and tgt not in alias:
+                    alias.add(tgt)
+                    changed = True
+        for n in ast.walk(fn):
+            if isinstance(n, (ast.Assign, ast.AugAssign, ast.AnnAssign, ast.Delete)):
+                tg = n.targets if isinstance(n, (ast.Assign, ast.Delete)) else [n.target]
+                for t in tg:
+                    for x in ast.walk(t):
+                        if isinstance(x, (ast.Attribute, ast.Subscript)) and self.mentions(x.value, alias):
+                            raise Unsupported("%s modifies the data: %s" % (fn.name, _u(n)[:80]))
+                        if isinstance(x, ast.Name) and x.id in alias and isinstance(n, (ast.AugAssign, ast.Delete)):
+                            raise Unsupported("%s modifies the data: %s" % (fn.name, _u(n)[:80]))
+                if isinstance(n, ast.Assign):
+                    for t in n.targets:
+                        if isinstance(t, ast.Name) and t.id in alias and not (
+                                self.rooted(n.value, alias) or self.passthrough_call(mn, n.value, alias)):
+                            raise Unsupported("%s rebinds the data to something else: %s" % (fn.name, _u(n)[:80]))
+                        if isinstance(t, (ast.Tuple, ast.List)) and self.mentions(t, alias):
+                            raise Unsupported("%s rebinds the data in a tuple assignment: %s" % (fn.name, _u(n)[:80]))
+            if isinstance(n, ast.Call):
+                if any(k.arg in ("inplace", "out", "copy") for k in n.keywords) and self.mentions(n, alias):
+                    raise Unsupported("%s: inplace / out / copy argument near the data: %s" % (fn.name, _u(n)[:80]))
+                f = n.func
+                if isinstance(f, ast.Attribute) and self.rooted(f.value, alias):
+                    if f.attr not in READ_ONLY_METHODS:
+                        raise Unsupported("%s calls %s on the data" % (fn.name, f.attr))
+                    continue
+                args = list(n.args) + [k.value for k in n.keywords]
+                hit = [a for a in args if self.rooted(a, alias)]
+                if not hit:
+                    continue
+                fu = _u(f)
+                if fu in PURE_CALLS or fu.startswith("np.") or fu.startswith("pd.api.types."):
+                    continue
+                r = self.resolve(mn, fu) if isinstance(f, ast.Name) else None
+                if r is None:
+                    raise Unsupported("%s hands the data to %s, which cannot be followed" % (fn.name, fu))
+                cmn, cfn = r
+                self.unchanged(cmn, cfn, self.bound_params(cfn, n, alias))
+        self.seen[key] = alias
+        return alias
+
+    def bound_params(self, cfn, call, alias):
+        """the parameters of the callee that receive the tracked objects"""
+        a = cfn.args
+        names = [p.arg for p in a.args]
+        out = set()
+        for i, x in enumerate(call.args):
+            if self.rooted(x, alias):
+                if isinstance(x, ast.Starred) or i >= len(names):
+                    if a.vararg is None and not isinstance(x, ast.Starred):
+                        raise Unsupported("too many arguments for " + cfn.name)
+                    out.add(a.vararg.arg if a.vararg else names[i])
+                else:
+                    out.add(names[i])
+        for k in call.keywords:
+            if self.rooted(k.value, alias):
+                if k.arg is None or k.arg not in names:
+                    raise Unsupported("keyword argument %s of %s" % (k.arg, cfn.name))
+                out.add(k.arg)
+        return out
+
+    def passthrough_call(self, mn, e, alias):
+        """e is G(p, ...) with p tracked, G followable, and G returns that argument unchanged"""
+        if not (isinstance(e, ast.Call) and isinstance(e.func, ast.Name)):
+            return False
+        r = self.resolve(mn, e.func.id)
+        if r is None:
+            return False
+        cmn, cfn = r
+        ps = self.bound_params(cfn, e, alias)
+        if len(ps) != 1:
+            return False
+        try:
+            return self.returns(cmn, cfn, [next(iter(ps))]) is not None
+        except Unsupported:
+            return False
+
+    def returns(self, mn, fn, params):
+        """every return of fn yields the objects bound to `params` (a single one, or a tuple of them in
+        this order), unchanged; raises Unsupported otherwise"""
+        alias_all = self.unchanged(mn, fn, set(params))
+        rets = [n for n in ast.walk(fn) if isinstance(n, ast.Return)]
+        if not rets:
+            raise Unsupported("%s returns nothing" % fn.name)
+
+        def origin(e):
+            """which parameter the returned expression is (through aliases / pass-through calls)"""
+            for p in params:
+                al = self.unchanged(mn, fn, {p})
+                if self.rooted(e, al) and isinstance(e, ast.Name):
+                    return p
+                if isinstance(e, ast.Call) and self.passthrough_call(mn, e, al):
+                    return p
+            return None
+        for r in rets:
+            v = r.value
+            got = [origin(x) for x in v.elts] if isinstance(v, ast.Tuple) else [origin(v)] if v is not None else [None]
+            if got != list(params):
+                raise Unsupported("%s does not return its argument(s) %s unchanged: return %s"
+                                  % (fn.name, list(params), _u(v) if v is not None else "None"))
+        return alias_all
 
 
 def _tab_cmp_self():
